@@ -107,6 +107,8 @@ func drive(c Case, next func(w *world, step int) (Op, bool)) outcome {
 			switch {
 			case strings.HasPrefix(a, "wrong-stanza-error"):
 				key = "C18/join/wrong-stanza-error"
+			case strings.HasPrefix(a, "wrong-request"):
+				key = "C18/request/wrong-presence"
 			case strings.HasPrefix(a, "wrong-address"):
 				key = "C18/join/wrong-address"
 			case strings.HasPrefix(a, "the serve loop ended"):
@@ -220,12 +222,15 @@ func corpus() []Case {
 		{"error-race-cancel", []Op{j(0), p(0), er(0, 2), {Op: "race", K: 0}, q(0)}},
 		{"two-rooms-crossed", []Op{j(0), j(1), p(0), p(1), wt(0), wt(1), av(1, 2), q(0), q(1), av(0, 2), q(0), q(1), un(1, 0), q(0), q(1)}},
 		{"same-room-two-nicks", []Op{j(0), p(0), wt(0), av(0, 2), j(2), p(1), wt(1), q(0), q(2), av(2, 2), q(2), un(0, 0), q(0), q(2)}},
+		{"other-occupant-while-joining", []Op{j(0), p(0), wt(0), av(2, 0), un(2, 0), q(0), av(0, 2), q(0), av(2, 2), un(2, 2), q(0)}},
+		{"other-occupant-while-leaving", []Op{j(0), p(0), wt(0), av(0, 2), lv(0), wt(1), un(2, 2), av(2, 0), q(0), un(0, 2), q(0)}},
 		{"unjoined-room-presence", []Op{av(3, 2), un(3, 2), j(0), p(0), wt(0), av(3, 2), av(1, 2), un(1, 2), q(0), av(0, 2), q(0)}},
 		{"unavailable-while-joining", []Op{j(0), p(0), wt(0), un(0, 2), av(0, 2), q(0)}},
 		{"kicked-then-leave", []Op{j(0), p(0), wt(0), av(0, 2), un(0, 2), q(0), lv(0), wt(1), cn(1)}},
 		{"kicked-rejoin-leave", []Op{j(0), p(0), wt(0), av(0, 2), un(0, 2), j(0), p(1), wt(1), av(0, 2), lv(0), wt(2), q(0), un(0, 2), q(0)}},
 		{"invites", []Op{{Op: "invite", V: 0}, {Op: "invite", V: 2}, {Op: "other", V: 0}, {Op: "invite", V: 6}, {Op: "other", V: 7}, {Op: "other", V: 5}}},
 		{"invite-untyped", []Op{{Op: "invite", V: 1}, {Op: "invite", V: 3}, {Op: "invite", V: 8}, {Op: "invite", V: 13}}},
+		{"not-an-invitation", []Op{{Op: "invite", V: 0}, {Op: "other", V: 8}, {Op: "other", V: 9}, {Op: "invite", V: 2}}},
 		{"others", []Op{j(0), p(0), wt(0), {Op: "other", V: 0}, {Op: "other", V: 1}, {Op: "other", V: 2}, {Op: "other", V: 3}, {Op: "other", V: 4}, {Op: "other", V: 6}, q(0), av(0, 0), q(0), {Op: "other", V: 6}, q(0)}},
 		{"stale-context-blocks-publish", []Op{j(0), p(0), wt(0), cn(0), j(0), p(1), av(0, 2), wt(1), q(0)}},
 		{"blocked-publish-cancelled", []Op{j(0), p(0), wt(0), er(0, 0), j(0), p(1), cn(1), j(0), p(2), av(0, 2), wt(2), q(0)}},
@@ -443,6 +448,11 @@ func main() {
 				res.Fail(v.Key, v.What, rp.Case)
 			}
 			res.Count("second-client-join", true, "second-client-join")
+		} else if rp.Case.Name == "nick-option-first-join" || rp.Case.Name == "nick-option-rejoin" {
+			for _, v := range nickScenario(rp.Case.Name == "nick-option-rejoin") {
+				res.Fail(v.Key, v.What, rp.Case)
+			}
+			res.Count(rp.Case.Name, true, "nick-option")
 		} else {
 			for i := 0; i < 5; i++ {
 				record(drive(rp.Case, nil))
@@ -466,6 +476,14 @@ func main() {
 		res.Fail(v.Key, v.What, Case{Name: "second-client-join", Ops: []Op{}})
 	}
 	res.Count("second-client-join", true, "second-client-join")
+	for _, v := range nickScenario(false) {
+		res.Fail(v.Key, v.What, Case{Name: "nick-option-first-join", Ops: []Op{}})
+	}
+	res.Count("nick-option-first-join", true, "nick-option")
+	for _, v := range nickScenario(true) {
+		res.Fail(v.Key, v.What, Case{Name: "nick-option-rejoin", Ops: []Op{}})
+	}
+	res.Count("nick-option-rejoin", true, "nick-option")
 	if os.Getenv("C18_DEBUG") == "corpus" {
 		res.CaseFiles = cf.Write(opts.Out, 400)
 		res.Write(opts.Out)
